@@ -20,7 +20,8 @@ EXPLANATION = (
     "Schema.__post_init__ raises on a missing key, duplicate id, duplicate name, unknown primitive type; (R5) a failed commit "
     "cleans up (C04.R3)."
     ' Also: every call of the validator reaches the signature comparison (no memo); the file-level validator compares full Arrow schemas.'
-    " R1 also evaluates the file-level format guard under the scenarios file_format = FileFormat.PARQUET and 'parquet' (the footer comparison must be reached) and rejects a signature returned as a dict (order-insensitive).")
+    " R1 also evaluates the file-level format guard under the scenarios file_format = FileFormat.PARQUET and 'parquet' (the footer comparison must be reached) and rejects a signature returned as a dict (order-insensitive)."
+    ' (R6) bounds written by an accepted append are lossless (C13.R4); (R7) create_table / load_table keep no handle registry and return the Table constructed in the call.')
 NOT_DECIDED = ("value-level round trip through Arrow/Parquet for every type and value class; 'mis-filter' in general; what "
                "pyarrow accepts for a declared type")
 
